@@ -1,5 +1,328 @@
-/- Driver for C14 (stub until the property's model is written). -/
+/- Driver for C14: the real stripvdomprepend()/addbounce()/del_dochan()/getcontrols()/injectbounce()
+   (harness/c14_bounce.c) against `Nq.Bounce`; the oracle is `Nq.BounceSpec` (paragraph reader,
+   governing virtualdomains entry, envelope rules) evaluated on what the implementation produced.
+   Input lines (hex fields, blob = NUL-separated case fields):
+     P <blob> <stripped> <text> <sleeps>
+     I <id> <blob> <bouncefile> <ret> <q> <F> <T> <body> <left> <log> <ret2> <q2> <F2> <T2> <body2|=> <left2>
+     C <blob> <n> <sender0> {<F> <T>}*
+     D <blob> <appended> -/
 import Drv.Util
-open Drv
-def handle (st : Stats) (_line : String) : IO Stats := return { st with cases := st.cases + 1 }
+import Nq.Bounce
+import Nq.Spec.BounceSpec
+
+open Nq Nq.Bounce Nq.BounceSpec Drv
+
+def splitNul (b : Bytes) : List Bytes :=
+  let rec go : Bytes → Bytes → List Bytes → List Bytes
+    | [], cur, acc => (cur.reverse :: acc).reverse
+    | c :: r, cur, acc => if c == 0 then go r [] (cur.reverse :: acc) else go r (c :: cur) acc
+  go b [] []
+
+def fld (fs : List Bytes) (i : Nat) : Bytes := fs.getD i []
+
+def pairsFrom : List Bytes → List (Bytes × Bytes)
+  | a :: b :: r => (a, b) :: pairsFrom r
+  | _ => []
+
+def DATE : Bytes := str "Date: 26 Sep 1995 04:46:53 -0000\n"
+def QP : Nat := 4242
+def chainReport : Bytes := str "Sorry, I couldn't find any host by that name. (#5.1.2)\n"
+/-- what the harness prints for "the file does not exist" -/
+def ABSENT : Bytes := [0]
+
+def faultOf (b : Bytes) : Fault :=
+  match b.head? with
+  | some 97 => .info | some 98 => .statErr | some 99 => .qqOpen | some 100 => .bounceOpen
+  | some 101 => .bounceRead | some 102 => .messOpen | some 103 => .messRead | some 104 => .qqClose
+  | some 105 => .unlink | _ => .none
+
+def controlsOf (fs : List Bytes) : Controls :=
+  let has (c : UInt8) (i : Nat) : Option Bytes := if (fld fs 0).contains c then some (fld fs i) else none
+  { me := has 109 1, bouncefrom := has 102 2, bouncehost := has 104 3, doublebounceto := has 116 4,
+    doublebouncehost := has 100 5, virtualdomains := has 118 6 }
+
+/-- spec-side VERP base, written independently of `verpBase`: drop a final "-@[]" -/
+def specBase (s : Bytes) : Bytes :=
+  match s.reverse with
+  | 93 :: 91 :: 64 :: 45 :: r => r.reverse
+  | _ => s
+
+def unhexList (s : String) : Option (List Bytes) :=
+  if s == "-" then some [] else (s.splitOn ",").mapM unhex
+
+def isSuffix (a b : Bytes) : Bool := a.reverse.isPrefixOf b.reverse
+
+def dropTrailingLF (t : Bytes) : Bytes := (t.reverse.dropWhile (· == LF)).reverse
+
+/-- oracle for one recipient paragraph as written by the implementation -/
+def paragraphOK (es : List (Bytes × Bytes)) (recip report text : Bytes) : Option String :=
+  let hdr := recipLine (namedRecipient es recip)
+  let rep' := if !report.isEmpty && report.getLast? != some LF then report ++ [LF] else report
+  let body := text.drop hdr.length
+  if (paragraphs text).length != 1 then some "not-exactly-one-paragraph"
+  else if !hdr.isPrefixOf text then some "does-not-start-with-recipient-line"
+  else if !isSuffix [LF, LF] text then some "no-blank-line-at-end"
+  else if hasLFLF (dropTrailingLF text) then some "blank-line-inside"
+  else if !(body.length == rep'.length + 1 && sanit rep' body.dropLast) then some "report-text-not-shown"
+  else none
+
+/-- oracle for the envelope of a queued message / for not queueing -/
+def envelopeOK (cfg : Cfg) (sender : Bytes) (q : Bool) (f : Bytes) (t : List Bytes) : Option String :=
+  let base := specBase sender
+  if base == DBSENDER then (if q then some "double-bounce-failure-was-not-discarded" else none)
+  else if !q then none
+  else if base.isEmpty then
+    (if f == DBSENDER && t == [cfg.doublebounceto] then none else some "double-bounce-envelope-wrong")
+  else (if f.isEmpty && t == [base] then none else some "bounce-envelope-wrong")
+
+/-- oracle for the text of a queued notice -/
+def noticeOK (cfg : Cfg) (sender mess : Bytes) (fails : List (Bytes × Bytes)) (body : Bytes) : Option String :=
+  let base := specBase sender
+  let single := !base.isEmpty
+  let tail := trailer single base mess
+  if !isSuffix tail body then some "original-message-not-appended" else
+  let front := body.take (body.length - tail.length)
+  let ps := paragraphs front
+  let n := fails.length
+  let rcptParas := ps.drop (ps.length - n)
+  let toAddr := if single then base else cfg.doublebounceto
+  if ps.length < n then some "fewer-paragraphs-than-failed-recipients"
+  -- a sender whose domain part carries LFs can put a blank line into its own To: field (quote2 copies the
+  -- domain part verbatim); the count of the header paragraphs is then not 2, the recipient paragraphs are
+  -- still checked from the end
+  else if !hasLFLF (Quote.quote2 toAddr ++ [LF]) && ps.length != n + 2 then some "paragraph-count-differs-from-failed-recipients"
+  else if !(List.zip fails rcptParas).all (fun (fr, p) => (recipLine (namedRecipient cfg.vdoms fr.1)).isPrefixOf p)
+    then some "paragraph-does-not-name-its-recipient"
+  else none
+
+def showRes (r : Res) : String :=
+  match r.queued with
+  | some m => s!"ret={r.ret} q=1 F={hex m.sender} T={",".intercalate (m.rcpts.map hex)} body={hex m.body} left={r.bounce.isSome} log={hex r.log}"
+  | none => s!"ret={r.ret} q=0 left={r.bounce.isSome} log={hex r.log}"
+
+structure Out where
+  st : Stats
+  msgs : List String := []
+
+def Out.dis (o : Out) (m : String) : Out :=
+  { st := { o.st with disagree := o.st.disagree + 1 }, msgs := s!"DISAGREE {m}" :: o.msgs }
+def Out.ora (o : Out) (m : String) : Out :=
+  { st := { o.st with oracle := o.st.oracle + 1 }, msgs := s!"ORACLE {m}" :: o.msgs }
+
+def b01 (s : String) : Option Bool := if s == "1" then some true else if s == "0" then some false else none
+
+/-- compare one injectbounce call with the model's result -/
+def agreeRes (r : Res) (ret q : Bool) (f : Bytes) (t : List Bytes) (body : Option Bytes) (left : Bool)
+    (log : Option Bytes) : Bool :=
+  r.ret == ret && r.queued.isSome == q && r.bounce.isSome == left &&
+  (match log with | some l => r.log == l | none => true) &&
+  (match r.queued with
+   | some m => m.sender == f && m.rcpts == t && (match body with | some b => m.body == b | none => true)
+   | none => true)
+
+def handleP (o : Out) (blobh : String) (blob stripped text : Bytes) : Out := Id.run do
+  let fs := splitNul blob
+  let es := cmEntries (readfile (fld fs 0))
+  let recip := fld fs 1
+  let report := fld fs 2
+  let mut o := o
+  o := { o with st := o.st.bump "kindP" }
+  let ms := stripvdom es recip
+  let mt := addbounceText es recip report
+  if ms != stripped || mt != text then
+    o := o.dis s!"in={blobh} kind=P impl={hex stripped} {hex text} model={hex ms} {hex mt}"
+  if stripped != recip then o := { o with st := o.st.bump "P_prefix_removed" }
+  if stripped != namedRecipient es recip then
+    o := o.ora s!"in={blobh} kind=P why=virtual-domain-prefix-not-removed-as-specified stripped={hex stripped} spec={hex (namedRecipient es recip)}"
+  match paragraphOK es recip report text with
+  | some why => o := o.ora s!"in={blobh} kind=P why={why} text={hex text}"
+  | none => pure ()
+  return o
+
+def handleD (o : Out) (blobh : String) (blob appended : Bytes) : Out := Id.run do
+  let fs := splitNul blob
+  let dying := (fld fs 0).head? == some 49
+  let recip := fld fs 1
+  let raw := fld fs 2
+  let es := cmEntries (readfile (fld fs 4))
+  let mut o := o
+  o := { o with st := o.st.bump "kindD" }
+  let rep := delReport dying (1 :: raw)
+  let expect := match rep with | some r => addbounceText es recip r | none => ABSENT
+  if expect != appended then
+    o := o.dis s!"in={blobh} kind=D impl={hex appended} model={hex expect}"
+  -- spec: a paragraph iff status 'D', or 'Z' while the message is past its lifetime
+  let st := raw.head?
+  let want := st == some 68 || (st == some 90 && dying)
+  o := { o with st := o.st.bump (if want then "D_bounced" else "D_not_bounced") }
+  if want then
+    if appended == ABSENT then o := o.ora s!"in={blobh} kind=D why=permanent-failure-not-recorded"
+    else if (paragraphs appended).length != 1 then o := o.ora s!"in={blobh} kind=D why=not-exactly-one-paragraph text={hex appended}"
+    else if !(recipLine (namedRecipient es recip)).isPrefixOf appended then
+      o := o.ora s!"in={blobh} kind=D why=does-not-start-with-recipient-line text={hex appended}"
+    else if raw.length + 1 < Gen.REPORTMAX && st == some 68 then
+      match paragraphOK es recip (raw.drop 1) appended with
+      | some why => o := o.ora s!"in={blobh} kind=D why={why} text={hex appended}"
+      | none => pure ()
+  else if appended != ABSENT then o := o.ora s!"in={blobh} kind=D why=bounce-recorded-without-permanent-failure text={hex appended}"
+  return o
+
+def handleI (o : Out) (id : Nat) (blobh : String) (blob : Bytes) (bfile : Option Bytes)
+    (ret q : Bool) (f : Bytes) (t : List Bytes) (body : Bytes) (left : Bool) (log : Bytes)
+    (ret2 q2 : Bool) (f2 : Bytes) (t2 : List Bytes) (body2 : Option Bytes) (left2 : Bool) : Out := Id.run do
+  let fs := splitNul blob
+  let cfg := getcontrols (controlsOf fs)
+  let fault := faultOf (fld fs 7)
+  let sender := fld fs 8
+  let mess := fld fs 9
+  let fails := pairsFrom (fs.drop 10)
+  let mut o := o
+  o := { o with st := (o.st.bump "kindI").bump ("fault_" ++ String.ofList [Char.ofNat ((fld fs 7).headD 45).toNat]) }
+  -- model
+  let mb := if fails.isEmpty then none else some (bounceFile cfg.vdoms fails)
+  if mb != bfile then
+    o := o.dis s!"in={blobh} kind=I what=bouncefile impl={match bfile with | some b => hex b | none => "absent"} model={match mb with | some b => hex b | none => "absent"}"
+  let r1 := inject cfg DATE id QP fault sender mb mess
+  if !agreeRes r1 ret q f t (some body) left (some log) then
+    o := o.dis s!"in={blobh} kind=I what=call1 impl=ret={ret} q={q} F={hex f} T={",".intercalate (t.map hex)} left={left} log={hex log} body={hex body} model={showRes r1}"
+  let r2 := inject cfg DATE id QP .none sender r1.bounce mess
+  let body2' := match body2 with | some b => some b | none => (if q then some body else none)
+  if !agreeRes r2 ret2 q2 f2 t2 body2' left2 none then
+    o := o.dis s!"in={blobh} kind=I what=call2 impl=ret={ret2} q={q2} F={hex f2} T={",".intercalate (t2.map hex)} left={left2} model={showRes r2}"
+  -- oracle on the implementation's behaviour
+  let base := specBase sender
+  o := { o with st := o.st.bump (if base == DBSENDER then "sender_doublebounce" else if base.isEmpty then "sender_empty"
+                                  else if base != sender then "sender_verp" else "sender_ordinary") }
+  -- every recipient paragraph of the implementation's bounce file
+  match bfile with
+  | some b =>
+    let ps := paragraphs b
+    if ps.length != fails.length then
+      o := o.ora s!"in={blobh} kind=I why=bounce-file-paragraphs-differ-from-failed-recipients n={ps.length} fails={fails.length} file={hex b}"
+    else if !(List.zip fails ps).all (fun (fr, p) => (recipLine (namedRecipient cfg.vdoms fr.1)).isPrefixOf p) then
+      o := o.ora s!"in={blobh} kind=I why=bounce-file-paragraph-does-not-name-its-recipient file={hex b}"
+  | none => if !fails.isEmpty then o := o.ora s!"in={blobh} kind=I why=failures-not-recorded"
+  match envelopeOK cfg sender q f t with
+  | some why => o := o.ora s!"in={blobh} kind=I why={why} F={hex f} T={",".intercalate (t.map hex)}"
+  | none => pure ()
+  match envelopeOK cfg sender q2 f2 t2 with
+  | some why => o := o.ora s!"in={blobh} kind=I why={why}-on-retry F={hex f2} T={",".intercalate (t2.map hex)}"
+  | none => pure ()
+  if q then
+    match noticeOK cfg sender mess fails body with
+    | some why => o := o.ora s!"in={blobh} kind=I why={why} body={hex body}"
+    | none => pure ()
+  if q2 then
+    match body2 with
+    | some b2 => match noticeOK cfg sender mess fails b2 with
+      | some why => o := o.ora s!"in={blobh} kind=I why={why}-on-retry body={hex b2}"
+      | none => pure ()
+    | none => pure ()
+  let had := bfile.isSome
+  -- bounce file removed only after the notice was queued (or the double bounce failure discarded)
+  if had && !left && !q && base != DBSENDER then
+    o := o.ora s!"in={blobh} kind=I why=bounce-file-removed-without-queued-notice"
+  -- success means: queued (unless nothing failed / triple bounce)
+  if ret && had && base != DBSENDER && !q then
+    o := o.ora s!"in={blobh} kind=I why=success-reported-without-notice"
+  -- once: after success a second call sends nothing
+  if ret && q2 then o := o.ora s!"in={blobh} kind=I why=second-notice-after-success"
+  -- retry: after a failure that queued nothing the next call sends the notice
+  if !ret && !q && had && base != DBSENDER && !q2 then
+    o := o.ora s!"in={blobh} kind=I why=notice-lost-after-temporary-failure"
+  return o
+
+def handleC (o : Out) (blobh : String) (blob : Bytes) (n : Nat) (s0 : Bytes) (env : List (Bytes × Bytes)) : Out := Id.run do
+  let fs := splitNul blob
+  let cfg := getcontrols (controlsOf fs)
+  let sender := fld fs 8
+  let mess := fld fs 9
+  let fails := pairsFrom (fs.drop 10)
+  let mut o := o
+  o := { o with st := (o.st.bump "kindC").bump s!"chain_len_{n}" }
+  -- model chain: every generated message fails permanently at its single recipient
+  let step (m : Msg) (bf : Bytes) : Option Msg := bounceOf cfg DATE bf m
+  let m0 : Msg := { sender := sender, rcpts := [], body := mess }
+  let rec go (fuel : Nat) (m : Msg) (bf : Option Bytes) (acc : List (Bytes × Bytes)) : List (Bytes × Bytes) :=
+    match fuel, bf with
+    | 0, _ => acc.reverse
+    | _, none => acc.reverse
+    | fuel + 1, some b => match step m b with
+      | none => acc.reverse
+      | some m' =>
+        let t := m'.rcpts.headD []
+        go fuel m' (some (addbounceText cfg.vdoms t chainReport)) ((m'.sender, t) :: acc)
+  let mchain := go 6 m0 (if fails.isEmpty then none else some (bounceFile cfg.vdoms fails)) []
+  if mchain != env || s0 != sender || n != env.length then
+    o := o.dis s!"in={blobh} kind=C impl={env.map (fun (a, b) => hex a ++ ">" ++ hex b)} model={mchain.map (fun (a, b) => hex a ++ ">" ++ hex b)}"
+  -- oracle: the chain message -> bounce -> double bounce -> nothing
+  let base := specBase sender
+  let want : Nat := if fails.isEmpty then 0 else if base == DBSENDER then 0 else if base.isEmpty then 1 else 2
+  if env.length > 2 then o := o.ora s!"in={blobh} kind=C why=bounce-chain-longer-than-bounce-and-double-bounce n={env.length}"
+  else if env.length != want then o := o.ora s!"in={blobh} kind=C why=bounce-chain-length n={env.length} want={want}"
+  else
+    let ok := match env with
+      | [] => true
+      | [(f1, t1)] => if base.isEmpty then f1 == DBSENDER && t1 == cfg.doublebounceto else f1.isEmpty && t1 == base
+      | [(f1, t1), (f2, t2)] => f1.isEmpty && t1 == base && f2 == DBSENDER && t2 == cfg.doublebounceto
+      | _ => false
+    if !ok then o := o.ora s!"in={blobh} kind=C why=bounce-chain-envelopes chain={env.map (fun (a, b) => hex a ++ ">" ++ hex b)}"
+  return o
+
+def pairUp : List Bytes → List (Bytes × Bytes)
+  | a :: b :: r => (a, b) :: pairUp r
+  | _ => []
+
+def handle (st : Stats) (line : String) : IO Stats := do
+  let bad : IO Stats := do
+    IO.println s!"DISAGREE unparsable line {line.take 300}"
+    return { st with disagree := st.disagree + 1, cases := st.cases + 1 }
+  let fsl := fields line
+  let finish (o : Out) (blob : Bytes) (nontriv : Bool) (sample : String) : IO Stats := do
+    for m in o.msgs.reverse do IO.println m
+    let h := hashBytes (blob ++ (fsl.headD "").toUTF8.toList)
+    let fresh := !o.st.seen.contains h
+    let mut st := { o.st with cases := o.st.cases + 1, seen := o.st.seen.insert h,
+                              nontrivial := o.st.nontrivial + (if fresh && nontriv then 1 else 0) }
+    if fresh && nontriv && st.samples < 2 && blob.length > 40 && blob.length < 400 then
+      IO.println s!"SAMPLE {sample.take 1200}"
+      st := { st with samples := st.samples + 1 }
+    return st
+  match fsl with
+  | ["P", blobh, sh, th, _sleeps] =>
+    match unhex blobh, unhex sh, unhex th with
+    | some blob, some s, some t =>
+      let o := handleP { st := st } blobh blob s t
+      let fs := splitNul blob
+      let nontriv := s != fld fs 1 || hasLFLF (fld fs 2) || (fld fs 2).head? == some LF || (fld fs 1).contains LF
+      finish o blob nontriv s!"kind=P in={blobh} stripped={sh} text={th}"
+    | _, _, _ => bad
+  | ["D", blobh, ah] =>
+    match unhex blobh, unhex ah with
+    | some blob, some a =>
+      let o := handleD { st := st } blobh blob a
+      finish o blob (a != ABSENT) s!"kind=D in={blobh} appended={ah}"
+    | _, _ => bad
+  | ["I", ids, blobh, bfh, rets, qs, fh, ths, bodyh, lefts, logh, ret2s, q2s, f2h, t2hs, body2h, left2s] =>
+    match ids.toNat?, unhex blobh, unhex bfh, b01 rets, b01 qs, unhex fh, unhexList ths, unhex bodyh with
+    | some id, some blob, some bf, some ret, some q, some f, some t, some body =>
+      match b01 lefts, unhex logh, b01 ret2s, b01 q2s, unhex f2h, unhexList t2hs, b01 left2s with
+      | some left, some log, some ret2, some q2, some f2, some t2, some left2 =>
+        let body2 : Option (Option Bytes) := if body2h == "=" then some none else (unhex body2h).map some
+        match body2 with
+        | some body2 =>
+          let bfile := if bfh == "-" then none else some bf
+          let o := handleI { st := st } id blobh blob bfile ret q f t body left log ret2 q2 f2 t2 body2 left2
+          finish o blob (q || !ret) s!"kind=I in={blobh} ret={rets} q={qs} F={fh} T={ths} left={lefts} log={logh} body={bodyh}"
+        | none => bad
+      | _, _, _, _, _, _, _ => bad
+    | _, _, _, _, _, _, _, _ => bad
+  | "C" :: blobh :: ns :: s0h :: rest =>
+    match unhex blobh, ns.toNat?, unhex s0h, rest.mapM unhex with
+    | some blob, some n, some s0, some envl =>
+      let o := handleC { st := st } blobh blob n s0 (pairUp envl)
+      finish o blob (n > 0) s!"kind=C in={blobh} n={ns} chain={" ".intercalate rest}"
+    | _, _, _, _ => bad
+  | _ => bad
+
 def main : IO Unit := runDriver handle
